@@ -73,6 +73,8 @@ type vrun struct {
 	regAddr      []regaddr.ModulePackage
 	staticDiags  map[string]sourcebundle.Diagnostics
 	diagsSeen    map[string][]string // diag id -> where it was delivered ("tracer", "add:<i>")
+	lockFirst    map[int]int         // task -> event number of the current call's first mutex acquisition
+	lockLast     map[int]int         // task -> event number of the current call's last mutex release
 	emitted      []emitted
 	probe        bool
 	probeOpenOK  []string
@@ -378,7 +380,7 @@ func (g registry) ModulePackageSourceAddr(ctx context.Context, pkgAddr regaddr.M
 		for _, rv := range r.sc.Regs[i].Versions {
 			v, err := versions.ParseVersion(rv.V)
 			if err == nil && v == version {
-				src, err := sourceaddrs.ParseRemoteSource(rv.Source)
+				src, err := parseRemoteMaybeMade(rv.Source)
 				if err != nil {
 					c.Result = "bad-source"
 					return resp, err
@@ -498,7 +500,7 @@ func (r *vrun) find(name string, fsys fs.FS, subPath string, deps *sourcebundle.
 			}
 			deps.AddLocalSource(a, fd)
 		case "remote":
-			a, err := sourceaddrs.ParseRemoteSource(d.addr)
+			a, err := parseRemoteMaybeMade(d.addr)
 			if err != nil {
 				diags = append(diags, simDiag{sev: sourcebundle.DiagError, id: "bad-remote:" + d.addr})
 				continue
@@ -669,4 +671,29 @@ func diagSig(d sourcebundle.Diagnostic) string {
 		ctx = s.Context.Filename
 	}
 	return fmt.Sprintf("%c|%s|%s|%s|%s|%v", d.Severity(), d.Description().Summary, d.Description().Detail, sub, ctx, d.ExtraInfo())
+}
+
+// madePrefixes mark an address that the caller (or a peer) does not parse from text but puts
+// together with sourceaddrs.MakeRemoteSource from a URL value of its own making: the same
+// address as the text after the prefix, in a URL that carries a field printing ignores.
+var madePrefixes = []string{"made-forcequery::", "made-omithost::"}
+
+func parseRemoteMaybeMade(text string) (sourceaddrs.RemoteSource, error) {
+	for _, pre := range madePrefixes {
+		if strings.HasPrefix(text, pre) {
+			a, err := sourceaddrs.ParseRemoteSource(text[len(pre):])
+			if err != nil {
+				return a, err
+			}
+			u := *a.Package().URL()
+			switch pre {
+			case "made-forcequery::":
+				u.ForceQuery = true
+			case "made-omithost::":
+				u.OmitHost = true
+			}
+			return sourceaddrs.MakeRemoteSource(a.Package().SourceType(), &u, a.SubPath())
+		}
+	}
+	return sourceaddrs.ParseRemoteSource(text)
 }
